@@ -2,7 +2,8 @@
 
 Real code: lena.flow.Selector / And / Or / Not / SelectContext / Filter, lena.flow.GroupBy,
 lena.context.make_include_exclude_tree / IncludeExcludeTree.get.
-Model: lean/LenaModel/Model/C15.lean, theorems lean/LenaModel/Props/C15.lean.
+Model: lean/LenaModel/Model/C15.lean; specification vocabulary lean/LenaModel/Model/C15Spec.lean; helper lemmas
+lean/LenaModel/Lemmas/C15.lean; theorems lean/LenaModel/Props/C15.lean.
 
 Cases (JSON):
   {"op":"select","spec":SPEC,"roe":bool,"top":"selector"|"filter","values":[{"d":data,"c":ctx|null},..]}
@@ -20,27 +21,35 @@ from harness.common import exc_name, jdump
 PID = "C15"
 TITLE = "Selectors evaluate compositionally; GroupBy partitions by the selected context"
 LEAN_MODULES = ["LenaModel.Props.C15"]
-LEAN_SOURCES = ["LenaModel/Model/C15.lean", "LenaModel/Lemmas/C15.lean", "LenaModel/Props/C15.lean"]
+LEAN_SOURCES = ["LenaModel/Model/C15.lean", "LenaModel/Model/C15Spec.lean", "LenaModel/Lemmas/C15.lean",
+                "LenaModel/Props/C15.lean"]
 DRIVER = "drivers/C15.lean"
 THEOREMS = [
+    # Part 1: selectors, SelectContext, Filter
     "Lena.C15.selector_compositional",
     "Lena.C15.sem_list_tuple",
     "Lena.C15.selector_init_error",
     "Lena.C15.selector_absorbs_errors",
     "Lena.C15.selector_total_leaves",
     "Lena.C15.semB_list_tuple_not",
+    "Lena.C15.contains_spec",
     "Lena.C15.select_context_absent_false",
     "Lena.C15.select_context_present",
-    "Lena.C15.filter_keeps_selected",
     "Lena.C15.filter_stops_at_first_error",
+    "Lena.C15.filter_keeps_selected",
+    # Part 2: include/exclude trees
     "Lena.C15.make_fuel_suffices",
     "Lena.C15.sel_eq_polarity",
     "Lena.C15.mem_prefixesDesc",
+    "Lena.C15.polarity_spec",
     "Lena.C15.iet_get_is_longest_prefix",
     "Lena.C15.make_include_exclude_tree_get",
     "Lena.C15.keep_leaf_paths",
     "Lena.C15.same_key_iff_agree",
+    # Part 3: GroupBy
     "Lena.C15.groupby_partition",
+    "Lena.C15.groupby_groups_perm",
+    "Lena.C15.groupby_default_one_group",
     "Lena.C15.groupby_share_iff_agree",
 ]
 TRUSTED = [
@@ -64,11 +73,11 @@ ASSUMPTIONS = [
 ]
 RULE = ("select: exhaustive specifications of depth <= 2 over 4 leaves (string, class, total and raising callable) with lists/"
         "tuples of 1-2 items and Not with both raise_on_error values, all depth <= 1 specifications over 9 leaves, x both "
-        "raise_on_error x 9 values, as Selector and as Filter; seeded random specifications of depth <= 3 (quick 1500, thorough "
-        "40000) with Selector/And/Or/Not/SelectContext instances, bad items, random contexts. groupby: every assignment of the 6 "
+        "raise_on_error x 9 values, as Selector and as Filter; seeded random specifications of depth <= 3 (quick 2000, thorough "
+        "120000) with Selector/And/Or/Not/SelectContext instances, bad items, random contexts. groupby: every assignment of the 6 "
         "paths of depth <= 2 over {a,b} to group_by/merge/neither x both roots (1458 key sets) x all 361 contexts of depth <= 2 "
         "over {a,b} with leaves {1,2} and {} (scalars where a listed path expects a dictionary included); seeded random key sets "
-        "over {a,b,c} up to depth 3 with random contexts up to depth 3 (quick 600, thorough 20000), overlapping and improper key "
+        "over {a,b,c} up to depth 3 with random contexts up to depth 3 (quick 800, thorough 60000), overlapping and improper key "
         "sets, string/tuple argument forms. Non-trivial: select - a value is selected and another is not, or an exception; "
         "groupby - at least two groups and a group with two values, or a construction error.")
 CASE_TIMEOUT = 20
@@ -390,7 +399,7 @@ def gen_cases(ctx):
         for top in ("selector", "filter"):
             cases.append({"op": "select", "spec": s, "roe": True, "top": top, "values": _VALUES[:2]})
     # --- selectors: sampled deeper specifications
-    n_sel = 1500 if ctx.tier == "quick" else 40000
+    n_sel = 2000 if ctx.tier == "quick" else 120000
     for _ in range(n_sel):
         vals = list(_VALUES)
         for _ in range(3):
@@ -413,7 +422,7 @@ def gen_cases(ctx):
                  (["", "a.b"], ["a"]), (["a"], ["", "a.b"]), (["", "a.b.a"], ["a.b"]), (["", "a.b"], ["a", "b"])]:
         cases.append({"op": "groupby", "group_by": g, "merge": m, "contexts": some_ctx + [None]})
     # --- GroupBy: sampled, three keys, depth <= 3
-    n_gb = 600 if ctx.tier == "quick" else 20000
+    n_gb = 800 if ctx.tier == "quick" else 60000
     for _ in range(n_gb):
         g, m = _rand_keyset(rng)
         n = rng.randint(2, 40)
